@@ -52,6 +52,9 @@ def desc_str(desc):
         elif g["t"] == "C":
             if g["n"]:
                 parts.append("C%d.%d" % (g["n"], g["m"]))
+        elif g["t"] == "V":
+            if g["n"]:
+                parts.append("V%d.%d" % (g["n"], g["s"]))
         elif g["len"]:
             parts.append("R%d.%d" % (g["off"], g["len"]))
     return ",".join(parts) if parts else "-"
